@@ -92,7 +92,7 @@ def hist_record(k, evs):
     return {'k': k, 'ev': [{x: e[x] for x in e if x not in ('line', 'stderr', 'ub')} for e in evs]}
 
 
-def run_trace_spec(ctx, module, cfg, recs, label, chunk, timeout=1500):
+def run_trace_spec(ctx, module, cfg, recs, label, chunk, timeout=3000):
     """Private variant of scheck.validate_histories: the trace modules of this check also print how far every rejected
     history got (<<"PROGRESS", {<<history, position>>}>>).  Returns {rejected history index: 0-based index of the first
     event that no action of the specification explains}."""
@@ -176,7 +176,7 @@ def report(ctx, recs_events, prej, irej, label):
 # -------------------------------------------------------------------------------------------------------------------------
 # T1: edge-covering tours through TLC's state graph
 # -------------------------------------------------------------------------------------------------------------------------
-def tours(ctx, edges, maxlen=120):
+def tours(ctx, edges, maxlen=300):
     rnd = random.Random(ctx.seed)
 
     def key(st):
@@ -188,7 +188,8 @@ def tours(ctx, edges, maxlen=120):
         out[ks].append((e['o'], kt))
         if kt != ks and kt not in succ[ks]:
             succ[ks][kt] = e['o']
-    for k in out:
+    for k in sorted(out):            # TLC's print order depends on its workers: sort before the seeded shuffle
+        out[k].sort(key=lambda x: (json.dumps(x[0], sort_keys=True), x[1]))
         rnd.shuffle(out[k])
     init = key(edges[0]['s'])
     if any(x for x in edges[0]['s']):
@@ -286,7 +287,7 @@ def rand_walk(rnd, k, nops, wild, big):
         if a in ('assignLit', 'appendLit', 'rawAppend'):
             o['lit'] = list(lit())
         if a == 'rawAppend':
-            o['n'] = rnd.choice([0, 0, 1, 16, 1000])
+            o['n'] = rnd.choice([0, 0, 1, 16, 1000] + ([4294967294, 4294967200, 268435456] if wild and rnd.random() < 0.5 else []))
         if a in ('appendf', 'printf'):
             o['n'] = rnd.choice([0, 7, 42, 99999, rnd.randint(0, 99999)])
         if a in ('reserveSpace', 'reserveCapacity'):
@@ -310,13 +311,16 @@ def limit_scenarios(ctx):
     M = MAXSIZE
     half = 140 * 1024 * 1024
     sc = []
-    # a + a beyond the limit; then the intact value still usable
+    # a + a beyond the limit; then the intact value is still usable (one 140 MiB allocation, one copy of it)
     sc.append([mkop('zfill', 1, n=half, c=120), mkop('zassign', 2, 1), mkop('zappend', 1, 2), mkop('zappend', 1, 1), mkop('zchop', 1, 1, pos=5, n=10),
                mkop('zappend', 2, 1), mkop('zreserve', 2, n=M - half + 1), mkop('zreserve', 2, n=100)])
-    # exactly maxSize is allowed, one more byte is not
-    sc.append([mkop('zfill', 1, n=M - 3, c=65), mkop('zfill', 2, n=3, c=66), mkop('zfill', 3, n=1, c=67), mkop('zappend', 1, 2), mkop('zappend', 1, 3),
-               mkop('zassign', 2, 1), mkop('zfill', 2, n=1, c=68), mkop('zchop', 2, 2, pos=M - 2, n=-1), mkop('zclear', 1), mkop('zclear', 2)])
+    # requests that must raise without allocating anything
+    sc.append([mkop('zfill', 1, n=3, c=65), mkop('zcapacity', 1, n=M + 1), mkop('zreserve', 1, n=M + 1), mkop('zreserve', 1, n=M - 2), mkop('zreserve', 1, n=-1),
+               mkop('zreserve', 1, n=-2), mkop('zcapacity', 1, n=-2), mkop('zfill', 1, n=M + 1, c=66), mkop('zfill', 1, n=M - 2, c=66), mkop('zassign', 2, 1), mkop('zappend', 2, 2)])
     if ctx.thorough:
+        # exactly maxSize is allowed, one more byte is not (256 MiB allocations)
+        sc.append([mkop('zfill', 1, n=M - 3, c=65), mkop('zfill', 2, n=3, c=66), mkop('zfill', 3, n=1, c=67), mkop('zappend', 1, 2), mkop('zappend', 1, 3),
+                   mkop('zassign', 2, 1), mkop('zfill', 2, n=1, c=68), mkop('zchop', 2, 2, pos=M - 2, n=-1), mkop('zclear', 1), mkop('zclear', 2)])
         sc.append([mkop('zcapacity', 1, n=M + 1), mkop('zcapacity', 1, n=M), mkop('zfill', 1, n=M, c=1), mkop('zfill', 1, n=1, c=2), mkop('zreserve', 1, n=1),
                    mkop('zreserve', 1, n=0), mkop('zassign', 3, 1), mkop('zchop', 3, 3, pos=1, n=-1), mkop('zappend', 3, 3), mkop('zclear', 1), mkop('zclear', 3)])
         sc.append([mkop('zfill', 1, n=half, c=7), mkop('zfill', 2, n=half, c=8), mkop('zappend', 1, 2), mkop('zappend', 2, 1), mkop('zchop', 1, 1, pos=half - 2, n=4),
@@ -368,7 +372,7 @@ def run(ctx):
     events, deaths = run_histories(ctx, exe, hists)
     recs_events = [(K1, evs) for evs in events]
     recs = [hist_record(K1, evs) for evs in events]
-    prej, irej = validate(ctx, recs, 't1', chunk=max(8, len(recs) // 12 + 1))
+    prej, irej = validate(ctx, recs, 't1', chunk=max(4, -(-len(recs) // (16 if ctx.thorough else 8))))
     ctx.cov['edges_replayed'] = covered
     ctx.cov['t1_histories'] = len(recs)
     ctx.cov['t1_steps'] = sum(len(e) for e in events)
@@ -389,7 +393,7 @@ def run(ctx):
     events2, deaths2 = run_histories(ctx, exe, hists)
     recs_events2 = [(walks[x][0], events2[x]) for x in range(nh)]
     recs2 = [hist_record(k, evs) for k, evs in recs_events2]
-    prej2, irej2 = validate(ctx, recs2, 't2', chunk=max(3, len(recs2) // 14 + 1))
+    prej2, irej2 = validate(ctx, recs2, 't2', chunk=max(3, -(-len(recs2) // (16 if ctx.thorough else 8))))
     ctx.cov['t2_histories'] = nh
     ctx.cov['t2_steps'] = sum(len(e) for e in events2)
     ctx.log('T2: %d random walks (%d calls): P-rejected %d, I-only rejected %d' % (nh, ctx.cov['t2_steps'], len(prej2), len(irej2)))
